@@ -468,12 +468,27 @@ func C12(tier string) int {
 			return run.Finish()
 		}
 		for _, initiator := range all {
-			for _, nt := range [][2]uint32{{2, 2}, {3, 2}, {3, 3}, {4, 3}, {4, 4}} {
+			for _, nt := range [][2]uint32{{2, 2}, {3, 2}, {3, 3}, {4, 3}, {4, 4}, {2, 3}, {3, 4}, {3, 5}, {4, 5}, {2, 1}, {4, 2}, {3, 1}, {3, 0}} {
 				larger++
 				cells++
 				name := fmt.Sprintf("%s/larger-%d-%d-%d", rig.DistWallet, initiator, nt[0], nt[1])
 				pk, parts, err := c.Generate(initiator, name, nt[1], nt[0])
 				rp := map[string]any{"check": "C12", "cluster_of": len(all), "initiator": initiator, "n": nt[0], "t": nt[1]}
+				if nt[1] > nt[0] || 2*nt[1] <= nt[0] {
+					// Not a threshold a key of n shares can have (more signatures than shares, or no majority).
+					if err == nil {
+						run.Violate(fmt.Sprintf("larger-cluster-bad-threshold-accepted:n=%d:t=%d", nt[0], nt[1]),
+							fmt.Sprintf("cluster of %d configured instances: a generation with n=%d t=%d started on instance %d reported success (key %x, holders %v)", len(all), nt[0], nt[1], initiator, pk[:6], holders(c, name)), rp)
+						successes++
+					} else {
+						refusals++
+						if h := holders(c, name); len(h) > 0 {
+							run.Violate(fmt.Sprintf("larger-cluster-bad-threshold-left-account:n=%d:t=%d", nt[0], nt[1]),
+								fmt.Sprintf("cluster of %d configured instances: the refused generation n=%d t=%d left an account on %v", len(all), nt[0], nt[1], h), rp)
+						}
+					}
+					continue
+				}
 				if err != nil {
 					run.Violate(fmt.Sprintf("larger-cluster-refused:n=%d:t=%d", nt[0], nt[1]),
 						fmt.Sprintf("cluster of %d configured instances: a generation with n=%d t=%d started on instance %d failed: %v", len(all), nt[0], nt[1], initiator, err), rp)
@@ -508,7 +523,7 @@ func C12(tier string) int {
 	run.Coverage = map[string]any{
 		"evaluations":                       cells,
 		"distinct_nontrivial":               len(perNT),
-		"rule":                              "clusters of n real instances wired through their real receiver handlers (messages marshalled and unmarshalled); after every successful generation each participant must at once sign with the new account addressed by name and addressed by its share public key, and list it; grid: n in 2..max, every t in 0..n+1, identifier sets (small, 10^6+i, 2^64-i, mixed), every initiator; for a valid t every order of participants returned by the peer selection and every commit completion order (all n! for small n, rotations+reversal above), and one tampered commit reply per participant and kind; oracle on success: every participant holds the account with the returned composite key, same vector/threshold/participants, share consistent with the vector, immediate signing and listing through its own services, every t-subset of partial signatures recovers a valid composite signature and no (t-1)-subset does; plus generations in a cluster of 5 configured instances for every n < 5 (exactly n participants reported, exactly n holders); plus second generations of a name the participants already hold, started on a participant and on an instance outside the participant set: a reported success is judged by the same oracle, a refusal must leave the first account intact; distinct = (n,t) cells with at least one successful generation",
+		"rule":                              "clusters of n real instances wired through their real receiver handlers (messages marshalled and unmarshalled); after every successful generation each participant must at once sign with the new account addressed by name and addressed by its share public key, and list it; grid: n in 2..max, every t in 0..n+1, identifier sets (small, 10^6+i, 2^64-i, mixed), every initiator; for a valid t every order of participants returned by the peer selection and every commit completion order (all n! for small n, rotations+reversal above), and one tampered commit reply per participant and kind; oracle on success: every participant holds the account with the returned composite key, same vector/threshold/participants, share consistent with the vector, immediate signing and listing through its own services, every t-subset of partial signatures recovers a valid composite signature and no (t-1)-subset does; plus generations in a cluster of 5 configured instances for every n < 5 and every t incl. thresholds above n and without majority (exactly n participants reported, exactly n holders; impossible thresholds refused); plus second generations of a name the participants already hold, started on a participant and on an instance outside the participant set: a reported success is judged by the same oracle, a refusal must leave the first account intact; distinct = (n,t) cells with at least one successful generation",
 		"samples":                           samples.List(),
 		"exhaustive":                        !capped && len(vacuous) == 0,
 		"max_n":                             maxN,
